@@ -1,20 +1,21 @@
 (* C07 Props: MapReduce - exactly-once processing, bounded workers, result table, termination.
-   Model.v is the LTS of lib/mr/mapreduce.go; a schedule is an ARBITRARY list of labels, `reachable cf s` quantifies
-   over all schedules, item lists, worker counts and behaviour scripts (cfg).  Ghost fields: `ws` (one entry per
-   spawned mapper = item passed to the mapper), `drained` (items eaten by drain(source)), `written` (every
-   writer.Write of a mapper), `dropped` (discarded by guardedWriter), `recvd` (received by the reducer function),
-   `cdrained` (eaten by the reducer's deferred drain(collector)), `ccalls` (cancel calls in once-order).
+   Model.v is the LTS of lib/mr/mapreduce.go (at /repo 1af3580: buffered one-shot panic channel d413f58 + re-check of
+   it in the output arm); a schedule is an ARBITRARY list of labels, `reachable cf s` quantifies over all schedules,
+   item lists, worker counts and behaviour scripts (cfg).  Ghost fields: `ws` (one entry per spawned mapper = item
+   passed to the mapper), `drained` (items eaten by drain(source)), `written` (every writer.Write of a mapper),
+   `dropped` (discarded by guardedWriter), `recvd` (received by the reducer function), `cdrained` (eaten by the
+   reducer's deferred drain(collector)), `ccalls` (cancel calls in once-order).
 
-   Covered at full strength for all schedules: conservation / at-most-once / exactly-once (clean), worker bound,
-   first cancel wins, outcome soundness and the clean result table, the termination measure.
-   NOT true of the code in general (witnesses below, W1/W2 replayed on the Go code): "in every case the call returns"
-   and "no goroutine left" fail as soon as a panic is raised after the caller has left (or may leave) its select,
-   or when finish() races with the reducer's send; ctx-done => DeadlineExceeded fails when the select also sees
-   the closed output.  Stuck-freedom / leak-freedom is therefore proved for the clean family (`_partial`) and
-   tested by exhaustive exploration for small configurations with cancels / context / single panics
-   (ExploreTests.v, outside the cone of this file). *)
+   Proved for all schedules: conservation / at-most-once / exactly-once (clean), worker bound, first cancel wins,
+   outcome soundness, the clean result table, cancel => that error (non-writing reducers), panic recorded => re-raised
+   (unless a reducer value was already handed over), a measure decreasing on every step, and - since the repairs -
+   stuck-freedom / termination / no goroutine left for EVERY configuration with workers >= 1, no mapper that waits
+   for the call's return, and at most two reducer writes (cancels, panics, context cancellation included).
+   Still false of the code (witnesses, `_refuted`): a panic raised after the reducer's value was handed over is
+   dropped; guardedWriter's check-then-send races with finish() ("send on closed channel" re-raised); ctx done =>
+   DeadlineExceeded fails when the select also sees the closed output; a third reducer write blocks for ever. *)
 From Coq Require Import Permutation.
-From God Require Import Base.Prelude C07.Model C07.ProofsA C07.ProofsB C07.ProofsC C07.ProofsD C07.ProofsE C07.Proofs C07.Spec C07.Tests.
+From God Require Import Base.Prelude C07.Model C07.ProofsA C07.ProofsB C07.ProofsC C07.ProofsD C07.ProofsE C07.ProofsF C07.Proofs C07.Spec C07.Tests.
 
 (* ---- conservation: nothing is duplicated or invented, for every schedule ---- *)
 Theorem c07_conservation : forall cf s, reachable cf s ->
@@ -125,83 +126,92 @@ Theorem c07_schedules_bounded : forall cf ls s, run cf (init cf) ls = Some s -> 
 Proof. exact run_length_bounded. Qed.
 Print Assumptions c07_schedules_bounded.
 
-(* ---- stuck-freedom, termination, no leak: proved for the clean family (any item list, any worker count >= 1,
-   mappers writing any number of values, reducer receiving all or j values and writing <= 2 times, context never
-   done).  MISSING for the full statement: configurations with cancel, ctx or panics - for panics and for reducer
-   writes racing with finish() the statement is false (witnesses below); for cancel / ctx without reducer writes it
-   is only tested exhaustively on small configurations (ExploreTests.test_cancel_waitret, test_double_cancel,
-   test_ctx_any_time, test_ctx_pre_cancel, test_panics_reraised, ...). ---- *)
-Theorem c07_no_stuck_partial : forall cf ls s, clean_cfg cf -> env_free ls ->
-  run cf (init cf) ls = Some s -> final s = false -> exists l, l <> LEnv /\ exists s', step cf s l = Some s'.
-Proof. exact no_stuck_partial. Qed.
-Print Assumptions c07_no_stuck_partial.
+(* ---- a panic is re-raised in the calling goroutine: without cancel and ctx, once a panic has been recorded
+   (generator, mapper or reducer; onceChan's CAS) the call never ends with ErrReduceNoOutput or an error: it
+   re-raises the recorded panic - unless the reducer's value had been handed to the caller before (then that value,
+   or the written-twice panic; see c07_write_then_panic_refuted).  With a reducer that writes nothing: always. ---- *)
+Theorem c07_panic_reraise : forall cf s o, reachable cf s -> ctxd s = false -> conce s = ONone -> wrote s = true ->
+  c s = CDone o -> (exists p, o = OPanic p /\ fpanic s = Some p) \/ (exists k, o = ORet k) \/ o = OPanicTwice.
+Proof. exact panic_reraise. Qed.
+Print Assumptions c07_panic_reraise.
 
-Theorem c07_termination_partial : forall cf ls s, clean_cfg cf -> env_free ls -> run cf (init cf) ls = Some s ->
+Theorem c07_panic_reraise_nowrite : forall cf s o, reachable cf s -> ctxd s = false -> conce s = ONone ->
+  wrote s = true -> c s = CDone o -> writes (rafter cf) = [] -> exists p, o = OPanic p /\ fpanic s = Some p.
+Proof. exact panic_reraise_nowrite. Qed.
+Print Assumptions c07_panic_reraise_nowrite.
+
+(* ---- in every case the call returns, and no goroutine is left: EVERY reachable non-final state of EVERY
+   configuration with workers >= 1, no mapper waiting for the call's return (AWaitRet) and at most two reducer
+   writes has an enabled step (panics of generator / mappers / reducer, cancels, context cancellation at any
+   moment, any schedule); every schedule is finite (c07_variant); hence every maximal run ends in the final state,
+   where all goroutines have exited and the caller has its outcome.  Both side conditions are necessary
+   (c07_third_write_refuted; a mapper that waits for the return of a call that waits for its mappers). ---- *)
+Theorem c07_no_stuck : forall cf s, live_cfg cf -> reachable cf s -> final s = false ->
+  exists l, l <> LEnv /\ exists s', step cf s l = Some s'.
+Proof. exact no_stuck. Qed.
+Print Assumptions c07_no_stuck.
+
+Theorem c07_termination : forall cf s, live_cfg cf -> reachable cf s ->
   (forall l, l <> LEnv -> step cf s l = None) -> final s = true.
-Proof. exact maximal_run_final. Qed.
-Print Assumptions c07_termination_partial.
+Proof. exact maximal_final. Qed.
+Print Assumptions c07_termination.
 
-Theorem c07_no_leak_partial : forall cf ls s, clean_cfg cf -> env_free ls -> run cf (init cf) ls = Some s ->
-  exists ls' s', env_free ls' /\ run cf s ls' = Some s' /\
+Theorem c07_no_leak : forall cf s, live_cfg cf -> reachable cf s ->
+  exists ls s', ~ In LEnv ls /\ run cf s ls = Some s' /\
     g s' = GDone /\ x s' = XDone /\ r s' = RDone /\ forallb w_exited (ws s') = true /\ (exists o, c s' = CDone o) /\
     running s' = 0.
-Proof. exact no_leak_partial. Qed.
-Print Assumptions c07_no_leak_partial.
+Proof. exact no_leak. Qed.
+Print Assumptions c07_no_leak.
 
-(* ---- the whole clean clause in terms of Spec.v: every clean run can be completed (c07_no_leak_partial), and every
-   complete clean run has mapped every item exactly once, delivered exactly the written values to a range
-   reducer, returned the table's outcome, and left no goroutine behind ---- *)
+(* ---- the whole clean clause in terms of Spec.v: a clean configuration is live (so every clean run can be
+   completed), and every complete clean run has mapped every item exactly once, delivered exactly the written
+   values to a range reducer, returned the table's outcome, and left no goroutine behind ---- *)
+Theorem c07_clean_is_live : forall cf, clean_cfg cf -> live_cfg cf.
+Proof. exact clean_cfg_live. Qed.
+
 Theorem c07_clean_spec : forall cf ls s, clean_cfg cf -> env_free ls -> run cf (init cf) ls = Some s ->
   final s = true -> all_exited s /\ exists o, c s = CDone o /\ clean_spec cf (map fst (ws s)) (recvd s) o.
 Proof. exact clean_family_spec. Qed.
 Print Assumptions c07_clean_spec.
 
-(* ---- clauses that are false of the code as modelled: computed witnesses ---- *)
-(* "once the generator function has returned no goroutine started by the call is left running": a mapper panic
-   that is not taken by the caller's select (the select may take the output closed by a concurrent cancel) blocks
-   for ever; replayed on the Go code (cancel, then a panic after the return: 3 goroutines leaked). *)
-Theorem c07_no_leak_refuted : exists cf ls s,
-  run cf (init cf) ls = Some s /\ c s = CDone (OErr (EUser 5)) /\ g s = GDone /\
-  nth_error (ws s) 1 = Some (1, WPSend (PUser 3)) /\ x s = XWait /\ r s = RRecv None [] /\
-  (forall l, l <> LEnv -> step cf s l = None).
-Proof. destruct w1_late_panic_leak as [s H]. exists cf_w1, sched_w1, s. exact H. Qed.
-Print Assumptions c07_no_leak_refuted.
+(* ---- clauses that are still false of the code as modelled: computed witnesses ---- *)
+(* "a panic in ... the reducer is re-raised": not if it is raised after the reducer's value was handed over: the call
+   returns 7, the panic (9) stays in the buffer.  Replayed on the Go code (corpus/C07/reducer_write_then_panic.json;
+   known finding reducer_write_then_panic). *)
+Theorem c07_write_then_panic_refuted : exists cf ls s,
+  run cf (init cf) ls = Some s /\ final s = true /\
+  c s = CDone (ORet 7) /\ fpanic s = Some (PUser 9) /\ ctxd s = false /\ conce s = ONone.
+Proof. destruct w2_write_then_panic_dropped as [s H]. exists cf_w2, sched_w2, s. exact H. Qed.
+Print Assumptions c07_write_then_panic_refuted.
 
-(* "in every case the call returns": reducer writes a value, then panics; replayed on the Go code (hang). *)
-Theorem c07_returns_refuted : exists cf ls s,
-  run cf (init cf) ls = Some s /\ c s = CDefer (ORet 7) /\ r s = RPSend (PUser 9) /\ g s = GDone /\
-  (forall l, l <> LEnv -> step cf s l = None).
-Proof. destruct w2_write_then_panic_hangs as [s H]. exists cf_w2, sched_w2, s. exact H. Qed.
-Print Assumptions c07_returns_refuted.
-
-(* guardedWriter's check-then-send is not atomic: finish() between the two makes the reducer's send panic
-   ("send on closed channel"), after the caller has returned: reducer goroutine left behind.  Replayed on the Go
-   code by stress (one cancelling mapper, reducer writes at once): 13 of 30000 runs (8 leaks, 5 re-raised panics). *)
+(* guardedWriter's check-then-send is not atomic: finish() between the two makes the reducer's send panic ("send on
+   closed channel"), and the caller may re-raise that runtime panic instead of returning the cancel error 5.
+   Observed on the Go code before the repairs by stress: 13 of 30000 runs (known finding send_on_closed). *)
 Theorem c07_send_on_closed_refuted : exists cf ls s,
-  run cf (init cf) ls = Some s /\ c s = CDone (OErr (EUser 5)) /\ r s = RPSend PSendClosed /\ g s = GDone /\
-  (forall l, l <> LEnv -> step cf s l = None).
+  run cf (init cf) ls = Some s /\ final s = true /\ c s = CDone (OPanic PSendClosed) /\ reterr s = Some (EUser 5).
 Proof. destruct w3_send_on_closed_output as [s H]. exists cf_w3, sched_w3, s. exact H. Qed.
 Print Assumptions c07_send_on_closed_refuted.
 
-(* "a context that is done makes it return context.DeadlineExceeded": not if the select also sees output closed. *)
+(* "a context that is done makes it return context.DeadlineExceeded": not if the select also sees output closed
+   (known finding ctx_select_race). *)
 Theorem c07_ctx_result_refuted : exists cf ls s,
   run cf (init cf) ls = Some s /\ ctxd (init cf) = true /\ final s = true /\ c s = CDone ONoOutput.
 Proof. destruct w4_ctx_done_other_result as [s H]. exists cf_w4, sched_w4, s. exact H. Qed.
 Print Assumptions c07_ctx_result_refuted.
 
-(* "a panic in the generator ... is re-raised": generator panic pending in panicChan, a mapper panic lets the
-   pipeline drain and close output, the select takes output: ErrReduceNoOutput, generator and X left behind. *)
-Theorem c07_panic_reraise_refuted : exists cf ls s,
-  run cf (init cf) ls = Some s /\ c s = CDone ONoOutput /\ g s = GPanicSend 8 /\ x s = XDrain /\
+(* necessity of "at most two reducer writes" in c07_no_stuck: the third write blocks for ever (outside the property's
+   quantifier, which has the reducer write 0, 1 or 2 times) *)
+Theorem c07_third_write_refuted : exists cf ls s,
+  run cf (init cf) ls = Some s /\ c s = CDone OPanicTwice /\ r s = RSend 3 [] /\
   (forall l, l <> LEnv -> step cf s l = None).
-Proof. destruct w5_two_panics_select_race as [s H]. exists cf_w5, sched_w5, s. exact H. Qed.
-Print Assumptions c07_panic_reraise_refuted.
+Proof. destruct w6_third_write_blocks as [s H]. exists cf_w6, sched_w6, s. exact H. Qed.
+Print Assumptions c07_third_write_refuted.
 
 (* ---- non-vacuity ---- *)
 Definition cf_ex : cfg := mkcfg 2 [1; 2] None (fun i => [AWrite i]) None [RWrite 7] false.
 Definition sched_ex : list label :=
   [LX; LXAcq; LGSendX; LW 0; LW 0; LW 0; LX; LXAcq; LGSendX; LW 1; LW 1; LW 1; LG; LG; LX; LXAcq; LX; LX; LX;
-   LR; LR; LR; LR; LCOut; LR; LR; LR; LC].
+   LR; LR; LR; LR; LCOut; LC; LR; LR; LR; LC].
 
 (* a clean configuration, a complete clean run of it, and what the theorems then say about it *)
 Example c07_clean_cfg_satisfiable : clean_cfg cf_ex /\ env_free sched_ex /\ NoDup (items cf_ex).
